@@ -475,4 +475,8 @@ def run(ctx):
     rules.append(sC33.rule_dict_fields(ctx))    # found FromPyUnionUtility assigning result.{{member.cname}}; repaired in /repo (97c0f17ba)
     # fourth round
     rules += [sC33.rule_shape(ctx), sC33.rule_outlen(ctx), sC33.rule_negchk(ctx)]
+    # fifth round
+    from ..rules import s4C33
+    rules.append(s4C33.rule_dirs(ctx, plain, keyed))
+    rules.append(s4C33.rule_cstype(ctx))
     return rules
